@@ -8415,8 +8415,8 @@ class Text(SVGElement, GraphicObject, Transformable):
         self.font_variant = s.font_variant
         self.font_weight = s.font_weight
         self.font_stretch = s.font_stretch
-        self.font_size = s.font_size
-        self.line_height = s.line_height
+        self.font_size = _own(s.font_size)
+        self.line_height = _own(s.line_height)
         self.path = copy(s.path) if s.path is not None else None
 
     def parse_font(self, font):
